@@ -19,7 +19,7 @@ RULE = ('pool of 26 texts chosen to leave lexer/ply state dirty (valid programs,
         'attached comments plus the per-node table of literal-token positions, or exception type and message - is computed in a fresh interpreter per text. '
         '(i) exhaustively all call sequences of length <= 2 (quick) / <= 3 (thorough) in one process, every result '
         'compared with the fresh-process value; (ii) Hypothesis-generated long histories (<= 200 steps) that also '
-        'interleave pretty/minify printing and bare Lexer iteration; (iii) thread pools of 2-16 threads parsing the '
+        'interleave pretty/minify printing and bare Lexer iteration; (iii) thread pools of 2-16 threads (in an interpreter of their own; no parse finishing in any thread for 90 s is a blocked parse, a violation) parsing the '
         'pool concurrently (through parse() and through the es5 helper object) under sys.setswitchinterval in {1e-6, 1e-5, 1e-4, 5e-3}. non-trivial = a history in which '
         'a failing parse or a different comment flag immediately precedes the compared parse; distinct by history')
 ASSUMPTIONS = ['thread interleavings are only sampled (randomised stress, the harness does not own the schedule)',
@@ -218,35 +218,83 @@ def replay(case, acc):
         run_history(acc, (), exp, case['history'], case.get('origin', 'replay'))
 
 
-def run_threads(acc, opens, exp, nthreads, interval, parses, seed):
-    import random
-    old = sys.getswitchinterval()
-    sys.setswitchinterval(interval)
-    failures = []
-    per = max(1, parses // nthreads)
-    lock = threading.Lock()
-
-    def worker(tid):
-        rnd = random.Random(seed * 1000 + tid)  # schedule of calls per thread: harness-side only, not in a property
-        for _ in range(per):
-            i, wc = CALLS[rnd.randrange(len(CALLS))]
-            # a third of the calls go through the calmjs.parse.es5 helper object
-            got = outcome(TEXTS[i], wc, 'factory' if rnd.randrange(3) == 0 else 'parse')
-            if got != exp[(i, wc)]:
-                with lock:
-                    failures.append((i, wc, got))
+THREAD_DRIVER = r"""
+import random, threading
+job = json.loads(sys.stdin.read())
+TEXTS, CALLS, EXP = job['texts'], job['calls'], dict(((i, wc), e) for i, wc, e in job['expected'])
+import calmjs.parse
+def via_factory(text, with_comments=False):
+    return calmjs.parse.es5(text, with_comments=True) if with_comments else calmjs.parse.es5(text)
+sys.setswitchinterval(job['interval'])
+failures, lock, done = [], threading.Lock(), [0]
+def worker(tid):
+    rnd = random.Random(job['seed'] * 1000 + tid)  # schedule of calls per thread: harness-side only
+    for _ in range(job['per']):
+        i, wc = CALLS[rnd.randrange(len(CALLS))]
+        # a third of the calls go through the calmjs.parse.es5 helper object
+        if rnd.randrange(3) == 0:
+            got = outcome(TEXTS[i], wc, None, via_factory)
+        else:
+            got = outcome(TEXTS[i], wc)
+        with lock:
+            done[0] += 1
+            if done[0] % 25 == 0:
+                sys.stdout.write('P %d\n' % done[0]); sys.stdout.flush()
+            if json.loads(json.dumps(got)) != EXP[(i, wc)]:
+                failures.append((i, wc, got))
                 return
-    threads = [threading.Thread(target=worker, args=(t,)) for t in range(nthreads)]
-    try:
-        for t in threads:
-            t.start()
-        for t in threads:
-            t.join()
-    finally:
-        sys.setswitchinterval(old)
-    if failures:
-        i, wc, got = failures[0]
-        acc.fail(None, {'kind': 'threads', 'threads': nthreads, 'interval': interval, 'parses': parses, 'seed': seed},
+threads = [threading.Thread(target=worker, args=(t,)) for t in range(job['threads'])]
+for t in threads:
+    t.daemon = True
+    t.start()
+for t in threads:
+    t.join()
+sys.stdout.write('R ' + json.dumps(failures[:1]) + '\n'); sys.stdout.flush()
+"""
+STALL_S = 90   # no parse finished in any thread for this long although each takes milliseconds: blocked
+
+
+def run_threads(acc, opens, exp, nthreads, interval, parses, seed, root=None):
+    """thread stress in an interpreter of its own: a blocked thread cannot take the worker with it"""
+    import queue
+    root = root or ROOT or build._made[-1]
+    per = max(1, parses // nthreads)
+    job = {'texts': TEXTS, 'calls': [list(c) for c in CALLS], 'expected': [[i, wc, exp[(i, wc)]] for (i, wc) in CALLS],
+           'interval': interval, 'seed': seed, 'per': per, 'threads': nthreads}
+    code = build.boot_code(root) + OUTCOME_CODE + THREAD_DRIVER
+    p = subprocess.Popen([sys.executable, '-c', code], env=build.child_env(root), stdin=subprocess.PIPE,
+                         stdout=subprocess.PIPE, stderr=subprocess.PIPE, text=True)
+    q = queue.Queue()
+
+    def pump():
+        for line in p.stdout:
+            q.put(line)
+        q.put(None)
+    threading.Thread(target=pump, daemon=True).start()
+    p.stdin.write(json.dumps(job))
+    p.stdin.close()
+    case = {'kind': 'threads', 'threads': nthreads, 'interval': interval, 'parses': parses, 'seed': seed}
+    progress, result = 0, None
+    while True:
+        try:
+            line = q.get(timeout=STALL_S)
+        except queue.Empty:
+            p.kill()
+            acc.fail(None, case, {'bucket': 'concurrent_parse_never_returned', 'finished_parses': progress,
+                                  'stalled_for_s': STALL_S}, opens)
+            return progress
+        if line is None:
+            break
+        if line.startswith('P '):
+            progress = int(line[2:])
+        elif line.startswith('R '):
+            result = json.loads(line[2:])
+    p.wait()
+    if result is None:
+        raise RuntimeError('thread driver failed: %s' % p.stderr.read()[-600:])
+    if result:
+        i, wc, got = result[0]
+        acc.fail(None, case,
                  {'bucket': 'outcome_depends_on_concurrent_parses', 'text': TEXTS[i], 'with_comments': wc,
                   'got': json.dumps(got)[:300], 'fresh_process': json.dumps(exp[(i, wc)])[:300]}, opens)
     return per * nthreads
@@ -294,7 +342,8 @@ def run_shard(shard):
             acc.label('history_len_%d' % (len(history) // 50 * 50))
         run_given(st.lists(op, min_size=2, max_size=200), body, shard['n'], shard['hseed'], acc)
     else:
-        done = run_threads(acc, opens, exp, shard['threads'], shard['interval'], shard['parses'], shard['hseed'])
+        done = run_threads(acc, opens, exp, shard['threads'], shard['interval'], shard['parses'], shard['hseed'],
+                           shard['root'])
         acc.evaluations += 1
         acc.nontrivial.add(hash(('threads', shard['threads'], shard['interval'], shard['hseed'])))
         acc.samples.append({'threads': shard['threads'], 'switch_interval': shard['interval'], 'parses': done})
